@@ -249,7 +249,8 @@ def r4_input_fifo(ctx, mod, sym):
 def r5_queue_operations(ctx, mod):
     ctx.rule('R5', "decision table of set_input (abstract interpretation) over input forms {None, str, int, float, "
                    "bool, list, tuple} x clear x previous queue; clear_input() = set_input(None); queue_input calls "
-                   "set_input(inputs, clear=False)")
+                   "set_input(inputs, clear=False); run()/call() executed abstractly hand an explicit inputs= (an "
+                   "empty one included) to set_input before executing and leave the queue alone for inputs=None")
     fn = mod.func('Sandbox.set_input')
     ctx.analysed_function(mod, fn)
     forms = [None, 'x', 5, 2.5, True, ['a', 1], ('b', 'c'), []]
@@ -275,6 +276,42 @@ def r5_queue_operations(ctx, mod):
     ci = mod.func('Sandbox.clear_input')
     ctx.check(any(is_self_call(c, 'set_input') and len(c.args) == 1 and norm(c.args[0]) == 'None' for c in calls(ci)),
               'R5', 'clear_input', mod, ci, "clear_input is not set_input(None)", "clear_input leaves inputs queued")
+    # run(inputs=...) / call(inputs=...): an explicit `inputs` (an empty one included) becomes the queue before the
+    # student code runs; `inputs=None` leaves the queue alone
+    from .. import symexec
+    sym = Symbols(ctx.repo)
+    for entry, args in (('run', ['print(input())']), ('call', ['ask'])):
+        efn = mod.func('Sandbox.' + entry)
+        ctx.analysed_function(mod, efn)
+        for inputs in (None, [], '', ['a', 'b'], 'a', ()):
+            rec = symexec.Recorder()
+            submission = Obj('submission', main_file='answer.py', instructor_file='on_run.py',
+                             files={'answer.py': 'x = 1'})
+            me = symexec.self_obj(mod, 'Sandbox', threaded=False, report=Obj('report', submission=submission),
+                                  functions={'ask': 'fn'}, data={'ask': 'fn'}, target=None, exception=None,
+                                  _next_context_id=3, inputs=['queued earlier'])
+            for name in ('set_input', '_execute', 'allow_function', 'clear_mocked_function', 'clear_input',
+                         '_purge_temporaries'):
+                symexec.method(me, name, rec.stub(name))
+            symexec.method(me, '_construct_call', rec.stub('_construct_call', ret=('actual', 'student', 'arguments')))
+            symexec.method(me, '_handle_result', rec.stub('_handle_result', ret=Obj('result')))
+            fd = symexec.new_fd(sym, mod)
+            _, raised = symexec.run(fd, efn, args, {'inputs': inputs}, bound_self=me, what='Sandbox.' + entry)
+            order = [e[0] for e in rec.events if e[0] in ('set_input', '_execute')]
+            sets = rec.named('set_input')
+            if inputs is None:
+                ok = raised is None and not sets and '_execute' in order
+                want = 'must leave the queue alone and execute'
+            else:
+                ok = raised is None and len(sets) == 1 and order[:1] == ['set_input'] and '_execute' in order and \
+                    (list(sets[0][1]) + list(sets[0][2].values()))[:1] == [inputs]
+                want = 'must call set_input(%r) once before executing' % (inputs,)
+            ctx.check(ok, 'R5', '%s(inputs=%r)' % (entry, inputs), mod, efn,
+                      "Sandbox.%s(..., inputs=%r) performs %s%s; it %s" % (
+                          entry, inputs, [(e[0], e[1][:1]) for e in rec.events if e[0] in ('set_input', '_execute')],
+                          '' if raised is None else ' and raises %s' % raised.kind, want),
+                      "set_input(['stale']); run(inputs=[]) - the student's input() reads 'stale' although the "
+                      "instructor passed an empty queue")
     cmod = ctx.repo.module(COMMANDS)
     qi = cmod.func('queue_input')
     ctx.analysed_function(cmod, qi)
